@@ -7257,6 +7257,34 @@ fn binop_for_assert(
     }
 }
 
+/// Write `s` to wherever this session's standard output goes.
+fn write_to_session_stdout(session: &Session, s: String) {
+    match &session.stdout_stderr_mode {
+        StdoutStderrMode::WriteDirectly => {
+            print!("{s}");
+        }
+        StdoutStderrMode::WriteJson(StdoutJsonFormat::ReplSession) => {
+            let response = Response {
+                kind: ResponseKind::Printed { s },
+                position: None,
+                id: None,
+            };
+            print_as_json(&response, session.pretty_print_json);
+        }
+        StdoutStderrMode::WriteJson(StdoutJsonFormat::Playground) => {
+            let response = ResponseKind::Printed { s };
+            print_as_json(&response, session.pretty_print_json);
+        }
+        StdoutStderrMode::WriteToNReplBuffers { stdout_buf, .. } => {
+            stdout_buf
+                .lock()
+                .expect("stdout buffer poisoned")
+                .push_str(&s);
+        }
+        StdoutStderrMode::DoNotWrite => {}
+    }
+}
+
 /// Start evaluation of the expressions in the current stack frame.
 pub(crate) fn eval(env: &mut Env, session: &Session) -> Result<Value, EvalError> {
     if env.stack.0.len() == 1 && env.current_frame().exprs_to_eval.is_empty() {
@@ -7295,11 +7323,18 @@ pub(crate) fn eval(env: &mut Env, session: &Session) -> Result<Value, EvalError>
             }
 
             if session.trace_exprs {
-                println!("{:?}:\n  {:?}", expr_state, outer_expr.expr_,);
-                println!(
-                    "  Stack frame: exprs_to_eval: {} values: {}\n",
-                    env.current_frame().exprs_to_eval.len(),
-                    env.current_frame().evalled_values.len()
+                // Go through the session's output mode: writing to
+                // stdout directly would corrupt the message stream of a
+                // JSON or nREPL session.
+                write_to_session_stdout(
+                    session,
+                    format!(
+                        "{:?}:\n  {:?}\n  Stack frame: exprs_to_eval: {} values: {}\n\n",
+                        expr_state,
+                        outer_expr.expr_,
+                        env.current_frame().exprs_to_eval.len(),
+                        env.current_frame().evalled_values.len()
+                    ),
                 );
             }
 
